@@ -309,33 +309,7 @@ def _fmt_path(path):
 # ----------------------------------------------------------------------
 # running the real entry points
 # ----------------------------------------------------------------------
-_SCHEMA_OK = {}
-
-
-def fast_schema_check():
-    """jsonschema.validate() re-validates the *schema* against the draft
-    meta-schema on every call (~0.1 s); the DSL schemas are class-level
-    objects, so the verdict is memoised per schema object (first call is the
-    real check; a schema that changes identity or content is checked
-    again)."""
-    import jsonschema.validators as jv
-    if getattr(jv, '_vt_fast', False):
-        return
-    jv._vt_fast = True
-    for cls in set(jv._META_SCHEMAS.values()) | {jv._LATEST_VERSION}:
-        real = cls.check_schema.__func__
-
-        def memo(klass, schema, *a, _real=real, **kw):
-            try:
-                key = (klass, id(schema), json.dumps(schema, sort_keys=True,
-                                                     default=repr))
-            except Exception:  # noqa
-                return _real(klass, schema, *a, **kw)
-            if key in _SCHEMA_OK:
-                return
-            _real(klass, schema, *a, **kw)
-            _SCHEMA_OK[key] = schema
-        cls.check_schema = classmethod(memo)
+from vt.env import fast_schema_check  # noqa
 
 
 class Hang(Exception):
